@@ -64,7 +64,7 @@ Theorem edges_once_final labels rs ls :
     /\ Permutation ls (map fr_lhs front ++ init_labels r labels).
 Proof.
   intros (NDi & A & Ext) WF V H.
-  destruct (find_root (fr_ext r) t 0) as [root|] eqn:FR; [|unfold factorize_rule_model in H; rewrite FR in H; discriminate].
+  destruct (find_root (fr_ext r) t 0) as [root|] eqn:FR; [|unfold factorize_rule_model, factorize_rule_from in H; rewrite FR in H; discriminate].
   destruct (valid_rooted r t WF V root NDi A Ext FR) as (T & RV).
   destruct (edges_once r t ords labels root T rs ls (conj NDi A) FR RV H)
     as (nm & _ & _ & NB & CV & _ & _ & _). clear nm.
